@@ -997,17 +997,17 @@ func init() {
 			{Name: "rebatch", N: n(70, 280), Run: runRebatch},
 			{Name: "filterempty", N: n(70, 280), Run: runFilterEmpty},
 			{Name: "workers", N: n(96, 480), Run: runWorkers, Race: true, NRace: n(24, 96)},
-			{Name: "filteron", N: n(70, 280), Run: runFilterOn},
-			{Name: "divideon", N: n(70, 280), Run: runDivideOn},
-			{Name: "distribute", N: n(70, 280), Run: runDistribute},
-			{Name: "poolconcat", N: n(60, 240), Run: runPoolConcat},
-			{Name: "paired", N: n(70, 280), Run: runPaired},
-			{Name: "fragments", N: n(70, 280), Run: runFragments},
+			{Name: "filteron", N: n(70, 280), Run: runFilterOn, Race: true, NRace: n(12, 48)},
+			{Name: "divideon", N: n(70, 280), Run: runDivideOn, Race: true, NRace: n(12, 48)},
+			{Name: "distribute", N: n(70, 280), Run: runDistribute, Race: true, NRace: n(12, 48)},
+			{Name: "poolconcat", N: n(60, 240), Run: runPoolConcat, Race: true, NRace: n(12, 48)},
+			{Name: "paired", N: n(70, 280), Run: runPaired, Race: true, NRace: n(12, 48)},
+			{Name: "fragments", N: n(70, 280), Run: runFragments, Race: true, NRace: n(12, 48)},
 			{Name: "merge", N: n(42, 140), Run: runMerge},
 			{Name: "completefile", N: n(42, 140), Run: runLoad},
 			{Name: "copytee", N: n(42, 140), Run: runTee},
 			{Name: "ibatchover", N: n(16, 64), Run: runBatchOver},
-			{Name: "readfiles", N: n(32, 128), Run: runFiles},
+			{Name: "readfiles", N: n(32, 128), Run: runFiles, Race: true, NRace: n(12, 48)},
 			{Name: "compose", N: n(96, 480), Run: runCompose, Race: true, NRace: n(24, 96)},
 			{Name: "e2e", N: n(24, 120), Run: runE2E},
 			{Name: "e2e-files", N: n(16, 80), Run: runE2EFiles},
